@@ -63,7 +63,7 @@ var envNamePool = []string{"VERIF_E1", "VERIF_E2", "VERIF_E3", "VERIF_E4"}
 
 var wordPool = []string{"foo", "bar", "hello", "a", "b", "x", "log", "show", "sub", "list", "v", "verbose", "1", "42", "word", "a b", "help",
 	"'v'", "'5'", "'1.5'", "\"q\"", "100%", "%d", "%s%v"}
-var intPool = []string{"0", "1", "-1", "42", "+7", "007", "-0", "9223372036854775807", "-9223372036854775808",
+var intPool = []string{"0", "1", "-1", "42", "+7", "007", "0000000000000000000042", "-00000000000000000000007", "-0", "9223372036854775807", "-9223372036854775808",
 	"9223372036854775808", "-9223372036854775809", "123456789012345678901234567890"}
 var badIntPool = []string{"", "+", "-", "1_0", "0x10", "1e3", " 1", "1 ", "１", "abc", "1.5", "--1", "1..", "0b1", "٣"}
 var floatPool = []string{"0", "1.5", "-2.25", "1e3", "1E-3", ".5", "5.", "inf", "-Inf", "NaN", "Infinity", "0x1p-2", "1_0.5",
